@@ -174,21 +174,22 @@ func (s *Server) Extend(ctx context.Context, req *workerapipb.ExtendRequest) (*e
 	if endpoint == "" {
 		return nil, status.Error(codes.InvalidArgument, "endpoint is required")
 	}
-	leaseID := strings.TrimSpace(req.GetLeaseId())
-	if leaseID == "" || req.GetExtendBy() == nil {
-		return nil, status.Error(codes.InvalidArgument, "lease_id and extend_by are required")
-	}
 
-	extendBy, _, err := durationFromProto(req.GetExtendBy(), "extend_by")
-	if err != nil {
-		return nil, err
-	}
 	route, err := s.resolveAndAuthorize(ctx, endpoint)
 	if err != nil {
 		return nil, err
 	}
 	if s.Pull == nil {
 		return nil, status.Error(codes.Internal, "pull server is not configured")
+	}
+
+	leaseID := strings.TrimSpace(req.GetLeaseId())
+	if leaseID == "" || req.GetExtendBy() == nil {
+		return nil, status.Error(codes.InvalidArgument, "lease_id and extend_by are required")
+	}
+	extendBy, _, err := durationFromProto(req.GetExtendBy(), "extend_by")
+	if err != nil {
+		return nil, err
 	}
 	if opErr := s.Pull.Extend(route, leaseID, extendBy); opErr != nil {
 		return nil, mapOpError(opErr)
